@@ -171,7 +171,8 @@ def updExec (e : String → Bool) (id newId : String) (oe ue ok : Bool) (i : Str
 
 /-- Closed form of updateCommit (repaired order) once the definition was stored. -/
 theorem updateCommit_closed (env : Env) (fail : List String) (w : World) (id newId : String) (orig upd : Task)
-    (ho : w.store.tasks id = some orig) (hsd : (storeDefinition w id newId upd).2 = true) :
+    (ho : w.store.tasks id = some orig) (hsd : (storeDefinition w id newId upd).2 = true)
+    (hidle : upd.enabled = true → (orig.enabled = false ∨ id ≠ newId) → w.exec newId = false) :
     (updateCommit Variant.fixed env fail w id newId orig upd (needsReassoc Variant.fixed id newId orig upd.tmpl)).2 =
       (if upd.enabled = true ∧ (orig.enabled = false ∨ id ≠ newId) ∧ startOK env fail newId upd = false then .fail else .ok) ∧
     (updateCommit Variant.fixed env fail w id newId orig upd (needsReassoc Variant.fixed id newId orig upd.tmpl)).1.view =
@@ -185,11 +186,20 @@ theorem updateCommit_closed (env : Env) (fail : List String) (w : World) (id new
   generalize (if needsReassoc Variant.fixed id newId orig upd.tmpl = true
       then reassociate (storeDefinition w id newId upd).1 id orig upd.tmpl newId
       else (storeDefinition w id newId upd).1) = W2 at hW2 ⊢
+  have hW2e : W2.exec = w.exec := by
+    have := congrArg View.exec hW2; simpa [updV2] using this
   have hRv := restartRenamed_view env fail W2 id newId orig upd
+    (fun hne _ hue => by rw [hW2e]; exact hidle hue (Or.inr hne))
   have hRo := restartRenamed_ok env fail W2 id newId orig upd
+  have hRidle : orig.enabled = false → upd.enabled = true → (restartRenamed env fail W2 id newId orig upd).1.exec newId = false := by
+    intro hoe hue
+    have := congrArg View.exec hRv
+    rw [if_neg (fun hh => by rw [hoe] at hh; exact Bool.noConfusion hh.2.1)] at this
+    simp only [view_exec] at this
+    rw [this, hW2e]; exact hidle hue (Or.inl hoe)
   rw [hW2] at hRv
-  generalize restartRenamed env fail W2 id newId orig upd = R at hRv hRo ⊢
-  have hAv := applyStatus_view env fail R.1 id newId orig upd
+  generalize restartRenamed env fail W2 id newId orig upd = R at hRv hRo hRidle ⊢
+  have hAv := applyStatus_view env fail R.1 id newId orig upd hRidle
   have hAr := applyStatus_resp_eq env fail R.1 id newId orig upd
   rw [hRv] at hAv
   generalize applyStatus env fail R.1 id newId orig upd = A at hAv hAr ⊢
@@ -261,16 +271,27 @@ theorem updateCommit_refines (env : Env) (fail : List String) (w : World) (c : C
   have htasks : w.store.tasks = c.tasks := h.tasks
   have hc : c.tasks id = some orig := by rw [← htasks]; exact ho
   by_cases hsd : (storeDefinition w id (updateId id r) (updateDef env c orig r)).2 = true
-  · obtain ⟨hresp, hview⟩ := updateCommit_closed env fail w id (updateId id r) orig (updateDef env c orig r) ho hsd
-    rw [hresp] at hdev ⊢
-    rw [hview]
-    have hfresh : id ≠ updateId id r → w.store.tasks (updateId id r) = none := by
+  · have hfresh : id ≠ updateId id r → w.store.tasks (updateId id r) = none := by
       intro hne
       have := hsd
       rw [storeDefinition_ok w id _ _ orig ho, if_pos hne] at this
       cases hx : w.store.tasks (updateId id r)
       · rfl
       · rw [hx] at this; simp at this
+    have hidle : (updateDef env c orig r).enabled = true → (orig.enabled = false ∨ id ≠ updateId id r) →
+        w.exec (updateId id r) = false := by
+      intro _ hor
+      have he := h.exec (updateId id r)
+      simp only [view_exec, Cat.executing] at he
+      rw [he]
+      rcases hor with hoe | hne
+      · by_cases hid : id = updateId id r
+        · rw [← hid, hc]; simp [hoe]
+        · rw [← htasks, hfresh hid]
+      · rw [← htasks, hfresh hne]
+    obtain ⟨hresp, hview⟩ := updateCommit_closed env fail w id (updateId id r) orig (updateDef env c orig r) ho hsd hidle
+    rw [hresp] at hdev ⊢
+    rw [hview]
     have hstart : (updateDef env c orig r).enabled = true → (orig.enabled = false ∨ id ≠ updateId id r) →
         startOK env fail (updateId id r) (updateDef env c orig r) = true := by
       intro hue hor
@@ -483,7 +504,7 @@ theorem updateTemplate_refines (env : Env) (fail : List String) (w : World) (c :
         rw [← hnid]; split
         · assumption
         · exact hid
-      by_cases h1 : (!(env ns).tmplOk) = true
+      by_cases h1 : (!tmplAccepts env os ns) = true
       · rw [if_pos h1] at hr; cases hr
       rw [if_neg h1] at hr htk ⊢
       by_cases h2 : (!(storeTemplate w id nid ns).2) = true
